@@ -27,7 +27,7 @@ SpaceOf(name) ==
     [] name = "rn3"     -> SpRn(3)
     [] name = "discr3"  -> SpDiscr(3, QI(2))
 MC_Sp    == SpaceOf(IOEnv.FM_SPACE)
-MC_Depth == IF IOEnv.FM_DEPTH = "2" THEN 2 ELSE IF IOEnv.FM_DEPTH = "1" THEN 1 ELSE 0
+MC_Depth == IF IOEnv.FM_DEPTH = "3" THEN 3 ELSE IF IOEnv.FM_DEPTH = "2" THEN 2 ELSE IF IOEnv.FM_DEPTH = "1" THEN 1 ELSE 0
 
 Group(name) ==
   CASE name = "all"    -> {}
@@ -38,6 +38,8 @@ Group(name) ==
     [] name = "kl"     -> {"KL", "KLcc"}
     [] name = "core"   -> {"L1", "L2sq", "IndBox", "Huber"}
     [] name = "core2"  -> {"L2", "Linf", "IndBall2", "Quad"}
+    [] name = "quad"   -> {"Quad"}
+    [] name = "lin"    -> {"Lin"}
     [] name = "one"    -> {"L1"}
     [] name = "two"    -> {"L2sq", "IndBox"}
     [] name = "none"   -> {"-"}
@@ -49,6 +51,8 @@ RuleGroup(name) ==
                           "Bregman", "InfConv"}
     [] name = "grad"  -> {"Translate", "ArgScale", "LScale", "RVec", "AddConst", "QuadPert", "Bregman",
                           "Comp", "Sum", "Prod", "Quot"}
+    [] name = "lin"   -> {"Translate", "ArgScale", "LScale", "RVec", "AddConst", "Sum", "Prod", "Quot"}
+    [] name = "lin3"  -> {"Translate", "ArgScale", "LScale", "Sum"}
 MC_RuleFilter == RuleGroup(IOEnv.FM_RULES)
 MC_DeepLeaves == Group(IOEnv.FM_DEEP)
 
@@ -119,8 +123,12 @@ GradPoint(e, x) ==
   LET g == QGrad(e, x) IN
   [x |-> x, fx |-> QValue(e, x), interior |-> Interior(e.sp, e.f, x), g |-> g,
    dds |-> {[d |-> d, dd |-> QDirDeriv(e, x, d), sm |-> SmoothAlong(e.sp, e.f, x, d, Q(1, 64))] : d \in Ds}]
+\* lattice points on which the values refute a claim "this functional is linear"
+LinRefuted(e) == \/ LinearRefutedAt(e.sp, e.f, PVecY(N), PVecP(N))
+                 \/ LinearRefutedAt(e.sp, e.f, PVecP(N), PVecV(N))
 GradRec(e) ==
   [mode |-> "grad", space |-> IOEnv.FM_SPACE, sp |-> e.sp, f |-> e.f, k |-> e.k, attrs |-> Attrs(e),
+   linref |-> LinRefuted(e), linpts |-> <<PVecY(N), PVecP(N), PVecV(N)>>,
    pts |-> {GradPoint(e, x) : x \in Xs}]
 ExportRec(e) == CASE IOEnv.FM_MODE = "prox" -> ProxRec(e)
                   [] IOEnv.FM_MODE = "conj" -> ConjRec(e)
@@ -192,7 +200,9 @@ PairsOn(sp) ==
   {<<Leaf("L1"), Leaf("IndBallInf")>>, <<Leaf("L2"), Leaf("IndBall2")>>,
    <<LeafSC("Const", QZero, QI(3)), LeafSC("IndZero", QZero, QI(-3))>>} \cup
   (IF sp.m = 1 THEN {<<Leaf("Linf"), Leaf("IndBall1")>>} ELSE {}) \cup
-  (IF IsVF(sp) THEN {<<Leaf("GroupL1"), Leaf("IndGroupBall")>>} ELSE {}) \cup
+  (IF IsVF(sp) THEN {<<Leaf("GroupL1"), Leaf("IndGroupBall")>>,
+                     <<LeafS("GroupL1", QOne), LeafS("IndGroupBall", Inf)>>,     \* conjugate exponents 1 <-> inf
+                     <<LeafS("GroupL1", Inf), LeafS("IndGroupBall", QOne)>>} ELSE {}) \cup
   {<<Mk("KL", QZero, QZero, PVecG(Dim(sp)), <<>>, <<>>), Mk("KLcc", QZero, QZero, PVecG(Dim(sp)), <<>>, <<>>)>>}
 PairLat == IF N = 2 THEN TupSet(N, LatQ(6, 2)) ELSE TupSet(N, LatQ(2, 1))
 \* (operators with a parameter: TLC would evaluate a zero-arity constant definition at every start-up)
